@@ -48,6 +48,9 @@ def runK : List String → Option String
   | ["dot", xp, fp, xs] => do
       let xp ← parseVec? (K := K) xp; let fp ← parseVec? fp; let xs ← parseVec? xs
       pure (renderExcept renderVec (dotChecked xp fp xs))
+  | ["dotold", xp, fp, xs] => do
+      let xp ← parseVec? (K := K) xp; let fp ← parseVec? fp; let xs ← parseVec? xs
+      pure (renderExcept renderVec (dotOldChecked xp fp xs))
   | ["linext", xp, fp, xs] => do
       let xp ← parseVec? (K := K) xp; let fp ← parseVec? fp; let xs ← parseVec? xs
       pure (renderExcept renderVec (linextChecked xp fp xs))
